@@ -108,6 +108,13 @@ Theorem C14_string_prints_tree : forall s l, decode s = ROk l ->
 Proof. exact string_prints_tree. Qed.
 Print Assumptions C14_string_prints_tree.
 
+(* an accepted atom has the version operator it was written with: where a version needs an operator
+   (versionNeedsRelop), a text without one is never accepted as if "=" had been written *)
+Theorem C14_operator_as_written : forall input vnr asdep p r,
+  raw_parse_at input vnr asdep = (AOk p, r) -> C14.op_written vnr input p = true.
+Proof. exact raw_parse_op_written. Qed.
+Print Assumptions C14_operator_as_written.
+
 (* the per-case statement evaluated on implementation output by the correspondence check *)
 Theorem C14_holds : forall c, C14.wf c = true -> C14.kf c = 0%N -> C14.spec c (C14.model c) = true.
 Proof. exact C14_holds_proof. Qed.
